@@ -32,6 +32,8 @@ pub trait StackT: Any {
     fn clear(&mut self);
     fn reserve(&mut self, n: usize);
     fn reserve_regions_from(&mut self, src: &dyn StackT);
+    /// `FlatStack::reserve_items` with the given values announced (stacks whose region implements `ReserveItems`)
+    fn reserve_items(&mut self, vs: &[Value]);
     fn dup(&self) -> Box<dyn StackT>;
     fn dup_from(&mut self, src: &dyn StackT);
     fn serde_copy(&self) -> Result<Box<dyn StackT>, String>;
@@ -52,7 +54,12 @@ pub struct StackSlot<R: Region, S: IndexContainer<R::Index>> {
     /// region's share of the stack's report, whatever order the callbacks come in
     shadow: R,
     exact: bool,
+    /// `FlatStack::reserve_items` over owned values, where the region offers `ReserveItems` (monomorphic pointer:
+    /// the bound cannot be stated generically, CollapseSequence and ColumnsRegion do not implement it)
+    ri: Option<ReserveFn<R, S>>,
 }
+
+type ReserveFn<R, S> = fn(&mut FlatStack<R, S>, &mut R, &[<R as Region>::Owned]);
 
 impl<R, S> StackSlot<R, S>
 where
@@ -66,7 +73,7 @@ where
         s.as_any().downcast_ref::<StackSlot<R, S>>().expect("same stack type")
     }
     fn wrap(&self, st: FlatStack<R, S>, shadow: R) -> Box<dyn StackT> {
-        Box::new(StackSlot { st, shadow, exact: self.exact })
+        Box::new(StackSlot { st, shadow, exact: self.exact, ri: self.ri })
     }
 }
 
@@ -159,6 +166,16 @@ where
         }
         self.st.reserve_regions(std::iter::once(&r));
         self.shadow.reserve_regions(std::iter::once(&r));
+    }
+    fn reserve_items(&mut self, vs: &[Value]) {
+        let os: Vec<R::Owned> = vs.iter().map(R::Owned::from_json).collect();
+        match self.ri {
+            Some(f) => f(&mut self.st, &mut self.shadow, &os),
+            None => {
+                eprintln!("TOOL-ERROR: reserve_items on a stack whose region has no ReserveItems");
+                std::process::exit(2)
+            }
+        }
     }
     fn dup(&self) -> Box<dyn StackT> {
         self.wrap(self.st.clone(), self.shadow.clone())
@@ -292,10 +309,11 @@ pub struct StackSubject {
     pub ic: &'static str,
     pub isz: usize,
     pub dense: bool,
+    pub ri: bool,
     pub make: Box<dyn Fn() -> Box<dyn StackT>>,
 }
 
-fn add<R, S>(out: &mut Vec<StackSubject>, name: &'static str)
+fn add<R, S>(out: &mut Vec<StackSubject>, name: &'static str, ri: Option<ReserveFn<R, S>>)
 where
     R: Region + Shaped + Clone + Serialize + DeserializeOwned + 'static,
     S: IndexContainer<R::Index> + IcKind + Clone + Serialize + DeserializeOwned + 'static,
@@ -311,36 +329,45 @@ where
         ic: S::KIND,
         isz: std::mem::size_of::<R::Index>(),
         dense,
-        make: Box::new(|| Box::new(StackSlot::<R, S> { st: FlatStack::default(), shadow: R::default(), exact: S::KIND == "vec" })),
+        ri: ri.is_some(),
+        make: Box::new(move || Box::new(StackSlot::<R, S> { st: FlatStack::default(), shadow: R::default(), exact: S::KIND == "vec", ri })),
     });
 }
 
 pub fn stack_subjects() -> Vec<StackSubject> {
+    macro_rules! ri {
+        () => {
+            Some(|st, shadow, os| {
+                st.reserve_items(os.iter());
+                flatcontainer::ReserveItems::reserve_items(shadow, os.iter());
+            })
+        };
+    }
     let mut out = vec![];
-    add::<StringRegion, Vec<(usize, usize)>>(&mut out, "fs_string");
-    add::<MirrorRegion<u64>, Vec<u64>>(&mut out, "fs_mirror_u64");
-    add::<OwnedRegion<u8>, Vec<(usize, usize)>>(&mut out, "fs_owned_u8");
-    add::<SliceRegion<StringRegion>, Vec<(usize, usize)>>(&mut out, "fs_slice_str");
-    add::<OptionRegion<ResultRegion<StringRegion, MirrorRegion<u8>>>, Vec<Option<Result<(usize, usize), u8>>>>(&mut out, "fs_opt_res");
-    add::<TupleABRegion<MirrorRegion<u64>, StringRegion>, Vec<(u64, (usize, usize))>>(&mut out, "fs_tuple");
-    add::<CollapseSequence<StringRegion>, Vec<(usize, usize)>>(&mut out, "fs_collapse_str");
-    add::<Cip<StringRegion>, Vec<usize>>(&mut out, "fs_cip_str_vec");
-    add::<Cip<StringRegion>, IndexOptimized>(&mut out, "fs_cip_str_opt");
-    add::<Cip<StringRegion>, IList>(&mut out, "fs_cip_str_list");
-    add::<CollapseSequence<Cip<StringRegion>>, IndexOptimized>(&mut out, "fs_collapse_cip_str_opt");
-    add::<ColumnsRegion<StringRegion>, Vec<usize>>(&mut out, "fs_cols_str_vec");
-    add::<ColumnsRegion<StringRegion>, IndexOptimized>(&mut out, "fs_cols_str_opt");
-    add::<ColumnsRegion<MirrorRegion<u8>>, IList>(&mut out, "fs_cols_u8_list");
-    add::<Vec<u32>, IndexOptimized>(&mut out, "fs_vec_u32_opt");
-    add::<MirrorRegion<usize>, IndexOptimized>(&mut out, "fs_mirror_usize_opt");
-    add::<MirrorRegion<usize>, IList>(&mut out, "fs_mirror_usize_list");
-    add::<MirrorRegion<usize>, Vec<usize>>(&mut out, "fs_mirror_usize_vec");
+    add::<StringRegion, Vec<(usize, usize)>>(&mut out, "fs_string", ri!());
+    add::<MirrorRegion<u64>, Vec<u64>>(&mut out, "fs_mirror_u64", ri!());
+    add::<OwnedRegion<u8>, Vec<(usize, usize)>>(&mut out, "fs_owned_u8", ri!());
+    add::<SliceRegion<StringRegion>, Vec<(usize, usize)>>(&mut out, "fs_slice_str", ri!());
+    add::<OptionRegion<ResultRegion<StringRegion, MirrorRegion<u8>>>, Vec<Option<Result<(usize, usize), u8>>>>(&mut out, "fs_opt_res", ri!());
+    add::<TupleABRegion<MirrorRegion<u64>, StringRegion>, Vec<(u64, (usize, usize))>>(&mut out, "fs_tuple", ri!());
+    add::<CollapseSequence<StringRegion>, Vec<(usize, usize)>>(&mut out, "fs_collapse_str", None);
+    add::<Cip<StringRegion>, Vec<usize>>(&mut out, "fs_cip_str_vec", ri!());
+    add::<Cip<StringRegion>, IndexOptimized>(&mut out, "fs_cip_str_opt", ri!());
+    add::<Cip<StringRegion>, IList>(&mut out, "fs_cip_str_list", ri!());
+    add::<CollapseSequence<Cip<StringRegion>>, IndexOptimized>(&mut out, "fs_collapse_cip_str_opt", None);
+    add::<ColumnsRegion<StringRegion>, Vec<usize>>(&mut out, "fs_cols_str_vec", None);
+    add::<ColumnsRegion<StringRegion>, IndexOptimized>(&mut out, "fs_cols_str_opt", None);
+    add::<ColumnsRegion<MirrorRegion<u8>>, IList>(&mut out, "fs_cols_u8_list", None);
+    add::<Vec<u32>, IndexOptimized>(&mut out, "fs_vec_u32_opt", ri!());
+    add::<MirrorRegion<usize>, IndexOptimized>(&mut out, "fs_mirror_usize_opt", ri!());
+    add::<MirrorRegion<usize>, IList>(&mut out, "fs_mirror_usize_list", ri!());
+    add::<MirrorRegion<usize>, Vec<usize>>(&mut out, "fs_mirror_usize_vec", ri!());
     out
 }
 
 pub fn stacks_json() -> Value {
     Value::Array(
-        stack_subjects().iter().map(|s| json!({"name": s.name, "shape": s.shape, "ic": s.ic, "isz": s.isz, "dense": s.dense})).collect(),
+        stack_subjects().iter().map(|s| json!({"name": s.name, "shape": s.shape, "ic": s.ic, "isz": s.isz, "dense": s.dense, "ri": s.ri})).collect(),
     )
 }
 
@@ -373,6 +400,7 @@ fn apply(s: &mut Box<dyn StackT>, op: &Value) -> Result<(), String> {
         "clear" => s.clear(),
         "fresh" => *s = s.fresh(),
         "reserve" => s.reserve(op["n"].as_u64().unwrap_or(0) as usize),
+        "reserve_items" => s.reserve_items(&vs),
         "reserve_regions" => {
             let c = s.dup();
             s.reserve_regions_from(&*c)
@@ -598,7 +626,7 @@ pub fn replay_edge(edge: &Value, prop: &str, rep: &mut Report) {
             }
         }
         "C10" => {
-            let pres = ["reserve", "reserve_regions"];
+            let pres = ["reserve", "reserve_items", "reserve_regions"];
             let has = path.iter().any(|o| pres.contains(&opname(o)) || matches!(opname(o), "with_capacity" | "merge_capacity"));
             if !has {
                 judged = false;
